@@ -809,6 +809,7 @@ func ruleC12(prog *Program, rep *Report) {
 		rep.Errorf("M-truth evaluated %d cells (floor 900)", cells)
 	}
 	ruleRadix(prog, rep)
+	rulePresenceByNil(prog, rep) // a null member must reach the operators as null, not as Nothing
 }
 
 // ruleRadix: multi-valued operands are enumerated as a mixed-radix number: the
